@@ -2396,6 +2396,58 @@ Section TotalForceR.
     exists [(1, -1); (0, 0)], [(1, 2); (0, 0)], 0%nat, 1, (-1), 1, 2.
     eexists. eexists. repeat split; try reflexivity; cbn; lra.
   Qed.
+  (* the applied force split into its fb and fb_actual parts; f_old saved at end of step, after fb_actual *)
+  Lemma tf_trace_routed_spec late hist : late = true -> forall prev fold t s fb fba x,
+    nth_error hist t = Some (s, (fb, fba)) ->
+    nth_error (tf_trace_routed Rops late true true prev fold hist) (S t) = Some x -> x = s.
+  Proof.
+    intros Hl. subst late.
+    induction hist as [|[s0 [b0 a0]] r IH]; intros prev fold t s fb fba x Ht Hx; [destruct t; discriminate|].
+    cbn [tf_trace_routed nth_error] in Hx.
+    destruct t as [|t]; cbn [nth_error] in Ht.
+    - inversion Ht; subst s0 b0 a0. destruct r as [|[s1 [b1 a1]] r']; [discriminate|].
+      cbn [tf_trace_routed nth_error] in Hx. inversion Hx; subst x.
+      unfold tf_report, tf_end_routed, engine_total, applied. cbn [andb nadd nsub n0 Rops]. lra.
+    - apply (IH _ _ t s fb fba x Ht Hx).
+  Qed.
+
+  Theorem total_force_coupling_routed (hA hB : list (R * (R * R))) t sA bA aA sB bB aB xA xB :
+    map fst hA = map fst hB ->
+    nth_error hA t = Some (sA, (bA, aA)) -> nth_error hB t = Some (sB, (bB, aB)) ->
+    nth_error (tf_trace_routed Rops true true true None 0 hA) (S t) = Some xA ->
+    nth_error (tf_trace_routed Rops true true true None 0 hB) (S t) = Some xB ->
+    xA = xB /\ xA = sA.
+  Proof.
+    intros Hs HA HB XA XB.
+    pose proof (tf_trace_routed_spec true hA eq_refl None 0 t sA bA aA xA HA XA) as E1.
+    pose proof (tf_trace_routed_spec true hB eq_refl None 0 t sB bB aB xB HB XB) as E2.
+    assert (E : sA = sB).
+    { pose proof (map_nth_error fst t hA HA) as M1. pose proof (map_nth_error fst t hB HB) as M2.
+      rewrite Hs in M1. rewrite M1 in M2. cbn in M2. inversion M2; reflexivity. }
+    split; [congruence | exact E1].
+  Qed.
+
+  Lemma total_force_coupling_routed_premises_sat :
+    exists (hA hB : list (R * (R * R))) t sA bA aA sB bB aB xA xB,
+      map fst hA = map fst hB /\ nth_error hA t = Some (sA, (bA, aA)) /\ nth_error hB t = Some (sB, (bB, aB)) /\
+      aA <> 0 /\
+      nth_error (tf_trace_routed Rops true true true None 0 hA) (S t) = Some xA /\
+      nth_error (tf_trace_routed Rops true true true None 0 hB) (S t) = Some xB.
+  Proof.
+    exists [(1, (1, 2)); (0, (0, 0))], [(1, (0, 0)); (0, (0, 0))], 0%nat, 1, 1, 2, 1, 0, 0.
+    eexists. eexists. repeat split; try reflexivity; cbn; lra.
+  Qed.
+
+  (* if f_old were saved before "f += fb_actual", the bypassing biases' force of step t would stay in the sample *)
+  Lemma total_force_coupling_early_fold :
+    exists (h : list (R * (R * R))) s fb fba x,
+      nth_error h 0 = Some (s, (fb, fba)) /\
+      nth_error (tf_trace_routed Rops false true true None 0 h) 1 = Some x /\ x = s + fba /\ x <> s.
+  Proof.
+    exists [(1, (0, 2)); (0, (0, 0))], 1, 0, 2, 3. repeat split; try reflexivity; try lra.
+    cbn [tf_trace_routed nth_error]. unfold tf_report, tf_end_routed, engine_total, applied.
+    cbn [andb nadd nsub n0 Rops]. f_equal. lra.
+  Qed.
 End TotalForceR.
 
 (* ================================================================================================== *)
